@@ -215,3 +215,16 @@ func (e *Engine) staticModHeaps(c *Contract, fn interface {
 	}
 	return nil
 }
+
+// pow2iDef: exact 2^k for 0 <= k < 64 and 2^64 above (shifts of <=64-bit values by >= 64 give 0).
+func pow2iDef() string {
+	var b strings.Builder
+	b.WriteString("(define-fun pow2i ((k Int)) Int ")
+	for i := 0; i < 64; i++ {
+		fmt.Fprintf(&b, "(ite (= k %d) %s ", i, pow2(i).String())
+	}
+	b.WriteString(pow2(64).String())
+	b.WriteString(strings.Repeat(")", 64))
+	b.WriteString(")")
+	return b.String()
+}
